@@ -147,6 +147,19 @@ def generate(workdir, tier, rng):
         rng.shuffle(small)
         small = small[:1500]
     behs += small
+    # exhaustive: one writer, every order of 4 write times over 4 statements on one key
+    b, d, g, w = vf.gen_behaviours(workdir, "S3db", cfg_text(["w1"], ["k1"], 4, 4, 0, 1), name="gen_single")
+    notes.append("S3db single writer, 1 key, 4 times, 4 stmts, exhaustive: %d behaviours, %d distinct states, %.0fs" % (len(b), d, w))
+    states += d
+    trans += g
+    single = []
+    for x in b:
+        c = canon(x)
+        if c not in seen:
+            seen.add(c)
+            single.append(x)
+    rng.shuffle(single)
+    behs += single[:(500 if tier == "quick" else 4000)]
     # simulated larger scope: 3 writers, 2 keys, 5 times, 5 statements, 3 refreshes, 6 permutations
     nsim = 200 if tier == "quick" else 3000
     b, d, g, w = vf.gen_behaviours(workdir, "S3db", cfg_text(["w1", "w2", "w3"], ["k1", "k2"], 5, 5, 3, 6),
